@@ -47,7 +47,7 @@ def gen_labels(rng, n):
 
 def gen_arcs(rng, n, simple):
     arcs = []
-    m = rng.randrange(1, 11)
+    m = rng.randrange(1, 11 if n <= 6 else 19)
     neg = rng.random() < 0.3
     ties = rng.random() < 0.5  # few distinct costs: many equal-cost augmenting paths, so relaxation order matters
     for _ in range(m):
@@ -74,7 +74,7 @@ def generate(rng, tier):
         dy = rng.random() < 0.3
         mat = [[(rng.randrange(-8, 40) / 4.0 if dy else rng.randrange(-3, 12)) for _ in range(m)] for _ in range(n)]
         return {"kind": "assign", "matrix": mat}
-    n = rng.randrange(2, 7)
+    n = rng.randrange(2, 7 if tier == "quick" else 10)
     simple = rng.random() < 0.5
     for _ in range(50):
         arcs = gen_arcs(rng, n, simple)
